@@ -101,6 +101,13 @@ check("C08",
   "A 1-nolan band around the float-rounded requirement is a don't-care. Lottery outcomes are covered per distinct winner reachable in the small world, not per hash value.",
   "DESIGN.md §3 C08")
 
+check("C16",
+  "explicit-state breadth-first search of the real routing layer + scheduler (state = event history, digest from a cfg-guarded snapshot hook), monitors at the I/O boundary, closure run for the retry bound",
+  "model_checking",
+  "A real FullNode (RoutingThread + VerificationThread + ConsensusThread over in-memory I/O) with two handshaken scripted peers and a universe of four real blocks at three heights (one height forked), batch size 1 and 2: all sequences to depth 5 (quick) / 7 (thorough) of announce(peer,hash), fetched(peer,hash) with the real block bytes, failed(peer,hash), internal processing (verification -> consensus -> add -> BlockchainUpdated) and timer tick. Monitors on the fetch requests that reach the I/O boundary: per-peer in-flight <= batch size, heights non-decreasing within a selection round and no queued lower entry skipped, no (peer, block) in flight twice; every visited state is additionally driven to quiescence (all fetches answered, internals run, ticks) and every announced block must be stored or have been requested. The retry bound is decided on a closure run: one peer, one always-failing block, alternate failed/tick until no request appears for 60 rounds (requests <= 502).",
+  "Frontier capped at 3000 states per level (reported, exhaustive=false when hit). Hook H3 exposes the private scheduler fields for the digest only.",
+  "DESIGN.md §3 C16")
+
 NOT_YET = "check not built yet in this session (work in progress, see DESIGN.md §8 build order); nothing is claimed for it"
 NA = {}
 
